@@ -523,15 +523,20 @@ structure N50Data where
 
 def C100_DEFAULT : Rat := 100
 
+/-- the n50 loop's filter: `w.is_tenv && w.bounds == EXTERIOR` -/
+def WallP.inN50Scope (w : WallP) : Bool := w.isTenv && w.bounds = .exterior
+/-- windows of a wall in `props.windows` -/
+def winsOfWall (wins : List WinP) (w : WallP) : List WinP := wins.filter (fun x => x.wall = w.id)
+/-- C_100 of a window: that of its construction, 100 when it has none -/
+def winC100 (wc : List WinConsP) (x : WinP) : Rat := ((wc.find? (·.id = x.cons)).map (·.c100)).getD C100_DEFAULT
+
 def n50Data (walls : List WallP) (wins : List WinP) (wc : List WinConsP) (vol cO : Rat)
     (test : Option Rat) : N50Data :=
-  let scope := walls.filter (fun w => w.isTenv && w.bounds = .exterior)
+  let scope := walls.filter WallP.inN50Scope
   let wallsA := rsum (scope.map (fun w => w.areaNet * w.multiplier))
-  let winOf (w : WallP) := wins.filter (fun x => x.wall = w.id)
-  let windowsA := rsum (scope.map (fun w => rsum ((winOf w).map (·.area)) * w.multiplier))
+  let windowsA := rsum (scope.map (fun w => rsum ((winsOfWall wins w).map (·.area)) * w.multiplier))
   let windowsCA := rsum (scope.map (fun w =>
-    rsum ((winOf w).map (fun x => x.area * (((wc.find? (·.id = x.cons)).map (·.c100)).getD C100_DEFAULT)))
-      * w.multiplier))
+    rsum ((winsOfWall wins w).map (fun x => x.area * winC100 wc x)) * w.multiplier))
   let windowsC : Rat := if windowsA > 1 / 1000 then windowsCA / windowsA else 0
   let wallsCARef := wallsA * cO
   let n50Ref : Rat := if vol > 1 / 1000 then 629 / 1000 * (wallsCARef + windowsCA) / vol else 0
@@ -563,18 +568,32 @@ structure QDetail where
   fshSum : Rat
   deriving Repr, Inhabited
 
+def QDetail.fFMean (d : QDetail) : Rat := if d.a > 0 then d.fFSum / d.a else d.fFSum
+def QDetail.gMean (d : QDetail) : Rat := if d.a > 0 then d.gSum / d.a else d.gSum
+def QDetail.fshMean (d : QDetail) : Rat := if d.a > 0 then d.fshSum / d.a else d.fshSum
+
 structure QSolJul where
   qSum : Rat            -- Q_soljul
   aRef : Rat
+  /-- q_sol;jul = Q_soljul / A_ref (0 when there is no reference area) -/
+  q : Rat
   aWp : Rat
   irrSum : Rat
   fshSum : Rat
   gSum : Rat
   fFSum : Rat
+  /-- the reported area-weighted means (left at 0 when there is no window in scope) -/
+  irrMean : Rat
+  fshMean : Rat
+  gMean : Rat
+  fFMean : Rat
   detail : List QDetail
   /-- an orientation whose irradiance is missing from the table (`unwrap` panics) -/
   missingRad : Bool
   deriving Repr, Inhabited
+
+/-- `if a > 0.0 { s / a } else { s }`: the guarded division of the accumulated sums -/
+def guardedMean (s a : Rat) : Rat := if a > 0 then s / a else s
 
 structure QTerm where
   orient : Orient
@@ -614,9 +633,15 @@ def qSolJul (wins : List WinP) (wc : List WinConsP) (rad : Orient → Option Rat
                         irradiance := t0.rad, fFSum := rsum (sel.map (fun t => t.fF * t.area)),
                         gSum := rsum (sel.map (fun t => t.g * t.area)),
                         fshSum := rsum (sel.map (fun t => t.fsh * t.area)) })
-  { qSum := rsum (ok.map QTerm.gains), aRef := aRef, aWp := rsum (ok.map (·.area)),
-    irrSum := rsum (ok.map (fun t => t.rad * t.area)), fshSum := rsum (ok.map (fun t => t.fsh * t.area)),
-    gSum := rsum (ok.map (fun t => t.g * t.area)), fFSum := rsum (ok.map (fun t => t.fF * t.area)),
-    detail := detail, missingRad := ts.any Option.isNone }
+  let qSum := rsum (ok.map QTerm.gains)
+  let aWp := rsum (ok.map (·.area))
+  let irrSum := rsum (ok.map (fun t => t.rad * t.area))
+  let fshSum := rsum (ok.map (fun t => t.fsh * t.area))
+  let gSum := rsum (ok.map (fun t => t.g * t.area))
+  let fFSum := rsum (ok.map (fun t => t.fF * t.area))
+  { qSum := qSum, aRef := aRef, q := if aRef > 0 then qSum / aRef else 0, aWp := aWp,
+    irrSum := irrSum, fshSum := fshSum, gSum := gSum, fFSum := fFSum,
+    irrMean := guardedMean irrSum aWp, fshMean := guardedMean fshSum aWp, gMean := guardedMean gSum aWp,
+    fFMean := guardedMean fFSum aWp, detail := detail, missingRad := ts.any Option.isNone }
 
 end Cte
